@@ -168,6 +168,8 @@ class FixedGaussianNoise(Module):
             shape = p.shape if len(p.shape) == 1 else p.shape[:-1]
 
         if noise is not None:
+            if not noise.is_floating_point():
+                noise = noise.to(self.noise.dtype)  # (integer noise: the bound below is defined for floating dtypes)
             if noise.dtype in (torch.float, torch.double, torch.half):  # the dtypes min_fixed_noise is defined for
                 noise = self._lower_bounded(noise)
             return DiagLinearOperator(noise)
